@@ -1,6 +1,7 @@
 #ifndef VERIF_SHIM_PRINT_H
 #define VERIF_SHIM_PRINT_H
 #include <stdint.h>
+#include <string.h>
 #include <stddef.h>
 #include "WString.h"
 class Print {
